@@ -458,7 +458,9 @@ ReduceUncommitted(n, s) == [n EXCEPT !.uncommittedSz = IF s > @ THEN 0 ELSE @ - 
 
 \* proposals arrive without term/index; stamping them adds 4 bytes of encoding
 \* (two varint fields below 128)
-Stamp(e, term, index) == [e EXCEPT !.term = term, !.index = index, !.sz = e.sz + 4]
+\* protobuf size of the two stamped fields: one tag byte each plus the varint
+VarintLen(x) == IF x < 128 THEN 1 ELSE IF x < 16384 THEN 2 ELSE IF x < 2097152 THEN 3 ELSE 4
+Stamp(e, term, index) == [e EXCEPT !.term = term, !.index = index, !.sz = e.sz + 2 + VarintLen(term) + VarintLen(index)]
 
 \* appendEntry -> [n, ok]
 AppendEntry(c, n, d, es) ==
